@@ -14,7 +14,7 @@ TRUSTED = [
     "reservation theorems: valve, quake, unreal2; gamespy one/two/three and the single-game protocols are measured through the same allocator on count / index / offset mutations (no theorem yet)",
 ]
 RULE = ("extreme values written into every length / count / size / index position of Spec-generated valid scripts (split headers, compressed size and CRC, player and rule counts, "
-        "string terminators; a compressed reply whose valid bzip2 stream expands to 32-96 MiB behind a small announced size; GameSpy: maxplayers / numplayers / query ids as huge numbers, a huge part number inside the GameSpy 1 query id, a large index in the name of every kind of per-player variable, table row counts, field offsets; Unreal 2 announced counts; JC2M and Mindustry lengths; Minecraft Java packet / id / string length VarInts up to 2^31-1) plus the C01 malformed stream; the implementation's measured largest single allocation must be <= 16 MiB, peak live <= 64 MiB, and the number of "
+        "string terminators; a compressed reply whose valid bzip2 stream expands to 32-96 MiB behind a small announced size; GameSpy: maxplayers / numplayers / query ids as huge numbers, a huge part number inside the GameSpy 1 query id, a large index in the name of every kind of per-player variable, table row counts, field offsets; Unreal 2 announced counts; JC2M and Mindustry lengths; Eco over HTTP (real loopback web server): a Content-Length header announcing 17 MiB .. 2^64-1 bytes in front of a short body, honest length / chunked / close-delimited replies as controls; Minecraft Java packet / id / string length VarInts up to 2^31-1) plus the C01 malformed stream; the implementation's measured largest single allocation must be <= 16 MiB, peak live <= 64 MiB, and the number of "
         "datagrams sent <= 3 (retries+1) + datagrams received; non-trivial = a length/count field was altered; distinct by case bytes")
 MIB = 1 << 20
 
@@ -127,6 +127,7 @@ def gen_cases(tier, rng):
             cases.append({"id": "gs1part/%d/%d" % (g["seed"], j), "hex": gs_case(1, 7777, 0, None, evs),
                           "meta": {"stream": "gamespy1-part-number", "retries": 0, "n": len(evs)}})
     cases += bomb_cases(tier)
+    cases += http_cases(tier, rng)
     # Minecraft Java: the packet length, packet id and string length VarInts of the status reply at their extremes
     import C01
     for c in C01.mc_framing_cases(tier, rng.fork("mcframe")):
@@ -151,6 +152,30 @@ def gen_cases(tier, rng):
                               "hex": (bytes([50, game]) + (5000).to_bytes(2, "big") + enc_ts(None) + enc_events(evs) + b"\x00\x00\x00").hex(),
                               "meta": {"stream": "single-games", "retries": 0, "n": len(evs)}})
     return cases
+
+
+def http_cases(tier, rng):
+    """Eco over HTTP: a valid document behind a Content-Length that announces far more than the web server sends (it closes
+    after the document), and honest replies of every framing as controls: whatever the header says, the query may not
+    reserve memory by it."""
+    import C07
+    r = rng.fork("c13-http")
+    out = []
+    head = b"HTTP/1.1 200 OK\r\nContent-Type: application/json; charset=utf-8\r\nServer: Kestrel\r\n"
+    announced = (17 << 20, 256 << 20, 1 << 30, (1 << 30) + 1, 1 << 32, 1 << 40, (1 << 63) - 1, (1 << 64) - 1)
+    for i in range(3 if tier == "quick" else 40):
+        st = C07.eco_gen_state(r, long_text=(i % 2 == 1))
+        body = C07.eco_json_text(st, r)
+        for mode in ("length", "chunked", "close"):
+            reply, close = C07.eco_http(body, mode, r)
+            out.append({"id": "http/honest/%s/%d" % (mode, i), "hex": C07.eco_case(i % 2 == 1, reply, close, C07.eco_tree(body)),
+                        "meta": {"stream": "eco-http", "retries": 0, "n": 1}})
+        for a in announced:
+            reply = head + b"Content-Length: %d\r\n\r\n" % a + body
+            # the body ends before the announced length: the reader reports the cut (no document)
+            out.append({"id": "http/announced-%d/%d" % (a, i), "hex": C07.eco_case(i % 2 == 1, reply, True, None),
+                        "meta": {"stream": "eco-http-announced", "retries": 0, "n": 1}})
+    return out
 
 
 def bomb_cases(tier):
@@ -204,4 +229,4 @@ def extra_runs(tier, rng, ctx):
         if a:
             worst = max(worst, a[0])
     return [], {"largest_single_allocation_observed": worst, "covered_entry_points": ["valve::query", "quake one/two/three", "unreal2::query"],
-                "covered_by_measurement_only": ["gamespy one/two/three", "ffow", "savage2", "jc2m", "mindustry", "theship", "battalion1944"]}
+                "covered_by_measurement_only": ["eco (HTTP, loopback web server)", "gamespy one/two/three", "ffow", "savage2", "jc2m", "mindustry", "theship", "battalion1944"]}
